@@ -94,3 +94,65 @@ Proof.
          run_inst ti_now rget fst snd pw_id pw_cap tw_idx tw_total].
     cbn [rget fst snd]. repeat match goal with |- context [if ?b then _ else _] => destruct b eqn:? end; lia.
 Qed.
+
+(* ------------------------------------------------------------------ whole-graph mode: only sink tasks are rewarded *)
+(* chain T0 -> T1 on one CPU, now = 0, deadlines 6: T1 (5 us) would have to start at >= 0 + 2 + 1 = 3 and cannot finish
+   by 6, so no assignment places it; T0 (2 us) carries no reward (it is not a sink) and the all-unplaced assignment that
+   Gurobi returns is optimal although T0 can be added at slot 0 under the formulation's own convention *)
+Definition nsk_T0 : ttask := mkTT 0 SFree 0 6 [mkStrat 2 [(0, 1)]] [] 0 false.
+Definition nsk_T1 : ttask := mkTT 1 SFree (-1) 6 [mkStrat 5 [(0, 1)]] [0] 1 true.
+Definition nsk_inst : tinst := mkTI Gurobi 0 (-1) 1 true true true [nsk_T0; nsk_T1] [mkTW 1 [(0, 1)]].
+Definition nsk_assign : assignment :=
+  assign_of_keys [([2; 0; 0], 1); ([2; 0; 1], 1); ([2; 0; 2], 1); ([2; 0; 3], 1); ([2; 0; 4], 1); ([2; 0; 5], 1); ([2; 0; 6], 1);
+                  ([2; 1; 0], 1); ([2; 1; 1], 1); ([2; 1; 2], 1); ([2; 1; 3], 1); ([2; 1; 4], 1); ([2; 1; 5], 1); ([2; 1; 6], 1);
+                  ([4; 1], 3)].
+Lemma nsk_wf : wf_inst nsk_inst.
+Proof. apply wf_instb_sound. vm_compute. reflexivity. Qed.
+
+Lemma nsk_T1_never_placed : forall a', sat (gen_tetri nsk_inst) a' = true -> readback_task nsk_inst a' nsk_T1 = None.
+Proof.
+  intros a' Hs. destruct (readback_task nsk_inst a' nsk_T1) as [pl|] eqn:R; [|reflexivity]. exfalso.
+  assert (Hf1 : In nsk_T1 (free_tasks nsk_inst)) by (right; now left).
+  pose proof (tetri_precedence_explicit nsk_inst a' nsk_T1 nsk_T0 pl nsk_wf eq_refl Hs Hf1 R (or_introl eq_refl) (or_introl eq_refl)) as P.
+  cbn [tt_state nsk_T0] in P. destruct P as [plq [Rq Hle]].
+  destruct (readback_meets_deadline nsk_inst a' nsk_T1 pl eq_refl R) as [s [Hs' Hd]].
+  apply readback_cell in Rq. destruct Rq as [w [t [i [s0 [_ [Ht [_ [_ [_ [_ ->]]]]]]]]]].
+  pose proof (slots_ge_now nsk_inst t (wf_disc _ nsk_wf) Ht) as Hge. cbn [pl_start] in Hle.
+  apply readback_cell in R. destruct R as [w1 [t1 [i1 [s1 [_ [_ [Hs1 [_ [_ [_ ->]]]]]]]]]]. cbn [pl_strat pl_start] in *.
+  rewrite Hs1 in Hs'. inversion Hs'; subst s1. destruct i1 as [|i1]; [|destruct i1; discriminate]. cbn in Hs1. inversion Hs1; subst s.
+  change (slowest_runtime (tt_strats nsk_T0)) with 2 in Hle. change (tt_deadline nsk_T1) with 6 in Hd.
+  change (ti_now nsk_inst) with 0 in Hge. cbn [st_runtime] in Hd. lia.
+Qed.
+
+Lemma nsk_optimal : optimal nsk_inst nsk_assign.
+Proof.
+  split; [vm_compute; reflexivity|]. intros a' Hs'.
+  assert (E0 : objective (gen_tetri nsk_inst) a' = 0).
+  { rewrite (obj_eq_gen nsk_inst a' Hs'). cbn [ti_tasks nsk_inst sumf]. change (is_running nsk_T0) with false. change (is_running nsk_T1) with false.
+    cbv iota. change (rewarded_fb nsk_inst nsk_T0) with false. change (rewarded_fb nsk_inst nsk_T1) with true. cbv iota.
+    assert (Hf : In nsk_T1 (free_tasks nsk_inst)) by (right; now left).
+    rewrite (taskval_readback nsk_inst a' nsk_T1 Hs' Hf), (nsk_T1_never_placed a' Hs'). lia. }
+  rewrite E0. vm_compute. discriminate.
+Qed.
+
+Lemma nonsink_refuted : exists I a x pl,
+  wf_inst I /\ optimal I a /\ In x (free_tasks I) /\ rewarded_fb I x = false /\ readback_task I a x = None /\
+  pl_task pl = tt_id x /\ feasible (conv_tetri I) (to_pinst I) (pl :: plan_of (readback I a)).
+Proof.
+  exists nsk_inst, nsk_assign, nsk_T0, (mkPl 0 1 0%nat 0).
+  split; [exact nsk_wf|]. split; [exact nsk_optimal|]. split; [now left|]. split; [reflexivity|].
+  split; [vm_compute; reflexivity|]. split; [reflexivity|].
+  assert (Ep : plan_of (readback nsk_inst nsk_assign) = []) by (vm_compute; reflexivity). rewrite Ep.
+  split; [|split; [|split]].
+  - split; [repeat constructor; intros []|]. repeat constructor.
+    exists (to_ptask nsk_inst nsk_T0), (mkPWorker 1 [(0, 1)]), (mkStrat 2 [(0, 1)]). repeat split.
+  - repeat constructor. exists (to_ptask nsk_inst nsk_T0), (mkStrat 2 [(0, 1)]).
+    repeat split; try (cbn; lia); try (vm_compute; reflexivity); try (intros _; cbn; lia).
+  - repeat constructor. intros t pid Ft Hpid. vm_compute in Ft. inversion Ft; subst t. destruct Hpid.
+  - intros pw tau [<-|[]] Htau r. cbn [pi_now to_pinst nsk_inst] in Htau.
+    assert (Es : pl_strategy (to_pinst nsk_inst) (mkPl 0 1 0%nat 0) = Some (mkStrat 2 [(0, 1)])) by (vm_compute; reflexivity).
+    assert (Ef : fixed_of (to_pinst nsk_inst) = []) by (vm_compute; reflexivity).
+    unfold demand, demand_plan, demand_fixed. rewrite Ef. cbn [map fold_right]. unfold pl_active. rewrite Es.
+    cbn [pl_start pl_worker st_runtime st_req conv_tetri cv_closed pi_now to_pinst nsk_inst ti_now rget fst snd pw_id pw_cap tw_idx tw_total].
+    cbn [rget fst snd]. repeat match goal with |- context [if ?b then _ else _] => destruct b eqn:? end; lia.
+Qed.
